@@ -23,21 +23,58 @@ theorem J0_empty (cfg : Cfg) : J0 cfg FS.empty := by intro l hl; simp at hl
 
 theorem J_J0 {cfg : Cfg} {fs : FS} (h : J cfg fs) : J0 cfg fs := h.2
 
+theorem take_length_add {α : Type} (a b : List α) (n : Nat) : (a ++ b).take (a.length + n) = a ++ b.take n := by
+  induction a with
+  | nil => simp
+  | cons x a ih => simp only [List.cons_append, List.length_cons]; rw [Nat.add_right_comm, List.take_succ_cons, ih]
+
 /-- the state after `.params` has been written -/
-def afterParams (fs : FS) : FS := apply (apply fs (.create .params)) (.commit .params .good)
+def afterParams (fs : FS) : FS := applyAll fs (paramsEvs fixed)
+
+theorem afterParams_other (fs : FS) {p : Path} (h : p ≠ .params) (h' : p ≠ .paramsTmp) : afterParams fs p = fs p := by
+  simp [afterParams, paramsEvs, fixed, applyAll, apply, Ev.path, Ev.val, set_other _ _ h, set_other _ _ h']
 
 theorem J_afterParams {cfg : Cfg} {fs : FS} (h : J0 cfg fs) : J cfg (afterParams fs) := by
-  refine ⟨by simp [afterParams, apply, FS.good, FS.set, Ev.path, Ev.val], ?_⟩
+  refine ⟨by simp [afterParams, paramsEvs, fixed, applyAll, apply, FS.good, FS.set, Ev.path, Ev.val], ?_⟩
   intro l hl d hd
   have hdne : d ≠ .params := by
     intro e; subst e; have := mem_guarded_locksOf hd; simp [locksOf] at this
+  have hdne' : d ≠ .paramsTmp := by
+    intro e; subst e; have := mem_guarded_locksOf hd; simp [locksOf] at this
   have hlne : l ≠ .params := by
     intro e; subst e; simp [guarded] at hd
-  simp only [afterParams, apply, Ev.path, Ev.val, FS.has, FS.good, set_other _ _ hdne, set_other _ _ hlne] at hl ⊢
+  have hlne' : l ≠ .paramsTmp := by
+    intro e; subst e; simp [guarded] at hd
+  simp only [FS.has, FS.good, afterParams_other fs hdne hdne', afterParams_other fs hlne hlne'] at hl ⊢
   exact h l hl d hd
 
-theorem afterParams_other (fs : FS) {p : Path} (h : p ≠ .params) : afterParams fs p = fs p := by
-  simp [afterParams, apply, Ev.path, Ev.val, set_other _ _ h]
+/-- the four events of `save_params` keep the invariant at every prefix when `.params` was intact before (a resumed run):
+    the old file stays in place until the complete new one is renamed over it -/
+theorem params_prefix_J {cfg : Cfg} {fs : FS} (h : J cfg fs) : AllP (J cfg) fs (paramsEvs fixed) := by
+  have h3 : AllP (J cfg) fs [.create .paramsTmp, .commit .paramsTmp .good, .remove .paramsTmp] := by
+    apply allJ_body h
+    · intro e he; simp only [List.mem_cons, List.not_mem_nil, or_false] at he
+      rcases he with rfl | rfl | rfl <;> simp [Ev.path]
+    · intro e he hl; simp only [List.mem_cons, List.not_mem_nil, or_false] at he
+      rcases he with rfl | rfl | rfl <;> simp [Ev.path, isLock] at hl
+    · intro e he _ l hm; simp only [List.mem_cons, List.not_mem_nil, or_false] at he
+      have hn : Path.paramsTmp ∉ guarded cfg l := by
+        intro hm'; have := mem_guarded_locksOf hm'; simp [locksOf] at this
+      rcases he with rfl | rfl | rfl <;> exact absurd hm hn
+  have hJ3 := AllP_last h3
+  have h4 : J cfg (apply (applyAll fs [.create .paramsTmp, .commit .paramsTmp .good, .remove .paramsTmp])
+      (.commit .params .good)) := by
+    refine ⟨by simp [apply, FS.good, FS.set, Ev.path, Ev.val], ?_⟩
+    intro l hl d hd
+    have hdne : d ≠ .params := by
+      intro e; subst e; have := mem_guarded_locksOf hd; simp [locksOf] at this
+    have hlne : l ≠ .params := by
+      intro e; subst e; simp [guarded] at hd
+    simp only [apply, Ev.path, Ev.val, FS.has, FS.good, set_other _ _ hdne, set_other _ _ hlne] at hl ⊢
+    exact hJ3.2 l hl d hd
+  have : paramsEvs fixed = [.create .paramsTmp, .commit .paramsTmp .good, .remove .paramsTmp] ++ [.commit .params .good] := rfl
+  rw [this, AllP_append]
+  exact ⟨h3, AllP_single hJ3 h4⟩
 
 theorem lockList_nil_processed {cfg : Cfg} {fs : FS} (h : lockList cfg fs = []) :
     ∀ c ∈ cfg.chrs, fs.has (.processed c) = false := by
@@ -60,13 +97,13 @@ theorem run_shape {cfg : Cfg} (wf : WF cfg) (ord : List Path) (hord : ord.Nodup)
     (h : J0 cfg fs) (hp : rs = true → fs.good .params = true) (hcl : rs = false → lockList cfg fs = [])
     (hsv : cfg.fromSaves = true → SavesOK cfg fs) :
     ∃ rest : List Ev,
-      (run fixed cfg ord rs fs).evs = .create .params :: .commit .params .good :: rest ∧
+      (run fixed cfg ord rs fs).evs = paramsEvs fixed ++ rest ∧
       (run fixed cfg ord rs fs).ok = true ∧
       AllP (J cfg) (afterParams fs) rest ∧
       FinOK cfg (run fixed cfg ord rs fs).fs := by
   have hj := J_afterParams h
   have hlk : (afterParams fs).has .lock = fs.has .lock := by
-    simp only [FS.has]; rw [afterParams_other fs (by simp)]
+    simp only [FS.has]; rw [afterParams_other fs (by simp) (by simp)]
   have hrun : run fixed cfg ord rs fs = runStages (stages fixed cfg ord rs (rs && fs.has .lock)) fs := by
     cases rs with
     | true => simpa using run_resume_eq cfg ord fs
@@ -75,22 +112,22 @@ theorem run_shape {cfg : Cfg} (wf : WF cfg) (ord : List Path) (hord : ord.Nodup)
     (by intro e; simp only [Bool.and_eq_true] at e; exact e.1)
     (by intro e; simp only [Bool.and_eq_true] at e; rw [hlk]; exact e.2)
     (by intro e _ e'; rw [hlk]; subst e'; simpa using e)
-    (fun e => savesOK_frame (hsv e) (afterParams_other fs (by simp)) (fun _ => afterParams_other fs (by simp))
-      (fun _ => afterParams_other fs (by simp)))
-    (by intro _ e c hc; rw [FS.has, afterParams_other fs (by simp)]; exact lockList_nil_processed (hcl e) c hc)
-  have hck : ChecksOK (paramsStage rs fs) fs := by
+    (fun e => savesOK_frame (hsv e) (afterParams_other fs (by simp) (by simp)) (fun _ => afterParams_other fs (by simp) (by simp))
+      (fun _ => afterParams_other fs (by simp) (by simp)))
+    (by intro _ e c hc; rw [FS.has, afterParams_other fs (by simp) (by simp)]; exact lockList_nil_processed (hcl e) c hc)
+  have hck : ChecksOK (paramsStage fixed rs fs) fs := by
     unfold paramsStage
     cases rs with
     | false => exact checks_evs _ _
     | true => exact ⟨hp rfl, checks_evs _ _⟩
-  have hev : eventsOf (paramsStage rs fs) = [.create .params, .commit .params .good] := by
-    unfold paramsStage; cases rs <;> rfl
+  have hev : eventsOf (paramsStage fixed rs fs) = paramsEvs fixed := by
+    unfold paramsStage; cases rs <;> simp [eventsOf, eventsOf_append]
   obtain ⟨hok0, hevs0⟩ := runActs_of_checks hck
-  have hfs0 : (runActs (paramsStage rs fs) fs).fs = afterParams fs := by
+  have hfs0 : (runActs (paramsStage fixed rs fs) fs).fs = afterParams fs := by
     rw [runActs_fs, hevs0, hev]; rfl
   refine ⟨(runStages (refStage fixed cfg rs :: restStages cfg ord rs ((rs && fs.has .lock) || cfg.fromSaves))
     (afterParams fs)).evs, ?_, ?_, hg.2, ?_⟩
-  · simp only [hrun, stages_eq, runStages, hok0, if_true, hevs0, hev, hfs0]; rfl
+  · simp only [hrun, stages_eq, runStages, hok0, if_true, hevs0, hev, hfs0]
   · simp only [hrun, stages_eq, runStages, hok0, if_true, hfs0]; exact hg.1
   · simp only [hrun, stages_eq, runStages, hok0, if_true, hfs0]; exact hfin
 
@@ -98,13 +135,19 @@ theorem run_shape {cfg : Cfg} (wf : WF cfg) (ord : List Path) (hord : ord.Nodup)
     file that exists vouches only for complete, correct files, and `.params` is intact -/
 theorem crash_state_invariant {cfg : Cfg} (wf : WF cfg) (ord : List Path) (hord : ord.Nodup) (rs : Bool) {fs : FS}
     (h : J0 cfg fs) (hp : rs = true → fs.good .params = true) (hcl : rs = false → lockList cfg fs = [])
-    (hsv : cfg.fromSaves = true → SavesOK cfg fs) (k : Nat) (hk : 2 ≤ k) :
+    (hsv : cfg.fromSaves = true → SavesOK cfg fs) (k : Nat) (hk : 4 ≤ k ∨ rs = true) :
     J cfg (applyAll fs ((run fixed cfg ord rs fs).evs.take k)) := by
   obtain ⟨rest, hevs, _, hall, _⟩ := run_shape wf ord hord rs h hp hcl hsv
-  obtain ⟨k', rfl⟩ : ∃ k', k = k' + 2 := ⟨k - 2, by omega⟩
   rw [hevs]
-  simp only [List.take_succ_cons, applyAll]
-  exact AllP_take hall k'
+  by_cases h4 : 4 ≤ k
+  · obtain ⟨k', rfl⟩ : ∃ k', k = (paramsEvs fixed).length + k' := ⟨k - 4, by simp [paramsEvs, fixed]; omega⟩
+    rw [take_length_add, applyAll_append]
+    exact AllP_take hall k'
+  · -- a resumed run killed inside save_params: `.params` of the interrupted run is still in place
+    have hrs : rs = true := by rcases hk with hk | hk; exact absurd hk h4; exact hk
+    have hlt : k ≤ (paramsEvs fixed).length := by simp [paramsEvs, fixed]; omega
+    rw [List.take_append_of_le_length hlt]
+    exact AllP_take (params_prefix_J ⟨hp hrs, h⟩) k
 
 /-! ### runs that do not start in an empty folder -/
 
@@ -112,11 +155,6 @@ theorem crash_state_invariant {cfg : Cfg} (wf : WF cfg) (ord : List Path) (hord 
     files (they were written by a run that finished read collection) -/
 def SavesConsistent (cfg : Cfg) (fs : FS) : Prop :=
   SavesOK cfg fs ∧ ∀ c ∈ cfg.chrs, fs.has (.collected c) = true → fs.good (.groups c) = true ∧ fs.good (.bamstat c) = true
-
-theorem take_length_add {α : Type} (a b : List α) (n : Nat) : (a ++ b).take (a.length + n) = a ++ b.take n := by
-  induction a with
-  | nil => simp
-  | cons x a ih => simp only [List.cons_append, List.length_cons]; rw [Nat.add_right_comm, List.take_succ_cons, ih]
 
 /-- an index of the reference that the run finds inside the output folder and will read as it is (`idxTrusted`: not the index
     of the always-rewritten copy of a plain-gzip reference) is complete — it was supplied by the user or written by the
@@ -178,14 +216,14 @@ theorem J0_cleaned {cfg : Cfg} (fs : FS) (hs : cfg.fromSaves = true → SavesCon
     uninterrupted run on `fs0` -/
 theorem resume_correct_from {cfg : Cfg} (wf : WF cfg) (ord ord' : List Path) (hord : ord.Nodup) (hord' : ord'.Nodup)
     (fs0 : FS) (hs : cfg.fromSaves = true → SavesConsistent cfg fs0) (hi : IndexSound cfg fs0) (k : Nat)
-    (hk : (lockList cfg fs0).length + 2 ≤ k) : verdictFrom fixed cfg ord ord' fs0 k = .equal := by
+    (hk : (lockList cfg fs0).length + 4 ≤ k) : verdictFrom fixed cfg ord ord' fs0 k = .equal := by
   obtain ⟨hevs, hok0, hfs0⟩ := run_split wf ord fs0
   have hJ0 := J0_cleaned fs0 hs hi
   have hcl : lockList cfg (cleaned cfg fs0) = [] := lockList_cleaned cfg fs0
   have hsv1 : cfg.fromSaves = true → SavesOK cfg (cleaned cfg fs0) := fun e =>
     savesOK_frame (hs e).1 (cleaned_other cfg fs0 rfl) (fun _ => cleaned_other cfg fs0 rfl) (fun _ => cleaned_other cfg fs0 rfl)
   obtain ⟨k', rfl⟩ : ∃ k', k = (lockList cfg fs0).length + k' := ⟨k - (lockList cfg fs0).length, by omega⟩
-  have hk' : 2 ≤ k' := by omega
+  have hk' : 4 ≤ k' := by omega
   -- the crash state is a crash state of the run on the cleaned folder
   have hcrash : crashFSFrom fixed cfg ord fs0 ((lockList cfg fs0).length + k') =
       applyAll (cleaned cfg fs0) ((run fixed cfg ord false (cleaned cfg fs0)).evs.take k') := by
@@ -195,7 +233,7 @@ theorem resume_correct_from {cfg : Cfg} (wf : WF cfg) (ord ord' : List Path) (ho
     rw [this, applyAll_append]; rfl
   have hJ : J cfg (crashFSFrom fixed cfg ord fs0 ((lockList cfg fs0).length + k')) := by
     rw [hcrash]
-    exact crash_state_invariant wf ord hord false hJ0 (by simp) (fun _ => hcl) hsv1 k' hk'
+    exact crash_state_invariant wf ord hord false hJ0 (by simp) (fun _ => hcl) hsv1 k' (Or.inl hk')
   have hsvc : cfg.fromSaves = true → SavesOK cfg (crashFSFrom fixed cfg ord fs0 ((lockList cfg fs0).length + k')) := by
     intro e
     rw [hcrash]
@@ -223,7 +261,7 @@ theorem resume_correct_from {cfg : Cfg} (wf : WF cfg) (ord ord' : List Path) (ho
 /-- the output folder already holds the remains of an earlier (killed or finished) run with other options: any leftovers -/
 theorem resume_correct_dirty_folder {cfg : Cfg} (wf : WF cfg) (hm : cfg.fromSaves = false) (ord ord' : List Path)
     (hord : ord.Nodup) (hord' : ord'.Nodup) (fs0 : FS) (hi : IndexSound cfg fs0) (k : Nat)
-    (hk : (lockList cfg fs0).length + 2 ≤ k) :
+    (hk : (lockList cfg fs0).length + 4 ≤ k) :
     verdictFrom fixed cfg ord ord' fs0 k = .equal :=
   resume_correct_from wf ord ord' hord hord' fs0 (fun e => by rw [hm] at e; exact absurd e (by simp)) hi k hk
 
@@ -231,24 +269,24 @@ theorem resume_correct_dirty_folder {cfg : Cfg} (wf : WF cfg) (hm : cfg.fromSave
     leftovers next to them), kill, resume -/
 theorem resume_correct_read_assignments {cfg : Cfg} (wf : WF cfg) (hm : cfg.fromSaves = true) (ord ord' : List Path)
     (hord : ord.Nodup) (hord' : ord'.Nodup) (fs0 : FS) (hs : SavesConsistent cfg fs0) (hi : IndexSound cfg fs0) (k : Nat)
-    (hk : (lockList cfg fs0).length + 2 ≤ k) : verdictFrom fixed cfg ord ord' fs0 k = .equal :=
+    (hk : (lockList cfg fs0).length + 4 ≤ k) : verdictFrom fixed cfg ord ord' fs0 k = .equal :=
   resume_correct_from wf ord ord' hord hord' fs0 (fun _ => hs) hi k hk
 
 /-- **full-strength property** (fresh output folder, BAM input): kill the first run after any `k ≥ 2` events, resume:
     the resumed run completes and every final file equals that of the uninterrupted run -/
 theorem resume_correct {cfg : Cfg} (wf : WF cfg) (hm : cfg.fromSaves = false) (ord ord' : List Path) (hord : ord.Nodup)
-    (hord' : ord'.Nodup) (k : Nat) (hk : 2 ≤ k) : verdict fixed cfg ord ord' k = .equal := by
+    (hord' : ord'.Nodup) (k : Nat) (hk : 4 ≤ k) : verdict fixed cfg ord ord' k = .equal := by
   have := resume_correct_dirty_folder wf hm ord ord' hord hord' FS.empty (indexSound_empty cfg) k (by rw [lockList_empty]; simpa using hk)
   exact this
 
 /-- safety half: a resumed run never exits successfully with different, truncated or missing results -/
 theorem resume_never_silently_wrong {cfg : Cfg} (wf : WF cfg) (hm : cfg.fromSaves = false) (ord ord' : List Path)
-    (hord : ord.Nodup) (hord' : ord'.Nodup) (k : Nat) (hk : 2 ≤ k) : verdict fixed cfg ord ord' k ≠ .diff := by
+    (hord : ord.Nodup) (hord' : ord'.Nodup) (k : Nat) (hk : 4 ≤ k) : verdict fixed cfg ord ord' k ≠ .diff := by
   rw [resume_correct wf hm ord ord' hord hord' k hk]; decide
 
 /-- liveness half: the resumed run completes -/
 theorem resume_completes {cfg : Cfg} (wf : WF cfg) (hm : cfg.fromSaves = false) (ord ord' : List Path)
-    (hord : ord.Nodup) (hord' : ord'.Nodup) (k : Nat) (hk : 2 ≤ k) : verdict fixed cfg ord ord' k ≠ .fail := by
+    (hord : ord.Nodup) (hord' : ord'.Nodup) (k : Nat) (hk : 4 ≤ k) : verdict fixed cfg ord ord' k ≠ .fail := by
   rw [resume_correct wf hm ord ord' hord hord' k hk]; decide
 
 /-- the uninterrupted run itself completes with complete final files -/
@@ -267,7 +305,7 @@ def afterCrashes (cfg : Cfg) : List (List Path × Nat) → Bool → FS → FS
   | (ord, k) :: rest, rs, fs => afterCrashes cfg rest true (applyAll fs ((run fixed cfg ord rs fs).evs.take k))
 
 theorem afterCrashes_J {cfg : Cfg} (wf : WF cfg) (hm : cfg.fromSaves = false) (chain : List (List Path × Nat))
-    (hc : ∀ x ∈ chain, x.1.Nodup ∧ 2 ≤ x.2) (rs : Bool) {fs : FS} (h : J0 cfg fs)
+    (hc : ∀ x ∈ chain, x.1.Nodup) (rs : Bool) (h0 : rs = false → ∀ x ∈ chain.head?, 4 ≤ x.2) {fs : FS} (h : J0 cfg fs)
     (hp : rs = true → fs.good .params = true) (hcl : rs = false → lockList cfg fs = []) (hne : chain ≠ []) :
     J cfg (afterCrashes cfg chain rs fs) := by
   induction chain generalizing rs fs with
@@ -275,19 +313,26 @@ theorem afterCrashes_J {cfg : Cfg} (wf : WF cfg) (hm : cfg.fromSaves = false) (c
   | cons x chain ih =>
     obtain ⟨ord, k⟩ := x
     have hx := hc (ord, k) (by simp)
-    have hJ := crash_state_invariant wf ord hx.1 rs h hp hcl (fun e => by rw [hm] at e; exact absurd e (by simp)) k hx.2
+    have hk : 4 ≤ k ∨ rs = true := by
+      cases rs with
+      | true => exact Or.inr rfl
+      | false => exact Or.inl (h0 rfl (ord, k) (by simp))
+    have hJ := crash_state_invariant wf ord hx rs h hp hcl (fun e => by rw [hm] at e; exact absurd e (by simp)) k hk
     simp only [afterCrashes]
     cases chain with
     | nil => exact hJ
-    | cons y chain => exact ih (fun z hz => hc z (by simp [hz])) true hJ.2 (fun _ => hJ.1) (by simp) (by simp)
+    | cons y chain =>
+      exact ih (fun z hz => hc z (by simp [hz])) true (fun e => absurd e (by simp)) hJ.2 (fun _ => hJ.1) (by simp) (by simp)
 
-/-- a run interrupted any number of times (each time after its parameters were saved / re-saved) and finally resumed
-    without interruption completes with all final files complete and correct -/
+/-- **any number of interruptions, full strength**: the first run is killed at any point after its parameters were saved
+    (`4 ≤ k₁`: `.params.tmp` written, closed and renamed), every resumed run at **any** point — also inside its own
+    `save_params`, whose rename leaves the parameters of the interrupted run in place until the new file is complete —;
+    the final `--resume` completes with all final files complete and correct -/
 theorem resume_correct_after_repeated_crashes {cfg : Cfg} (wf : WF cfg) (hm : cfg.fromSaves = false) (chain : List (List Path × Nat))
-    (hc : ∀ x ∈ chain, x.1.Nodup ∧ 2 ≤ x.2) (hne : chain ≠ []) (ord : List Path) (hord : ord.Nodup) :
+    (hc : ∀ x ∈ chain, x.1.Nodup) (h0 : ∀ x ∈ chain.head?, 4 ≤ x.2) (hne : chain ≠ []) (ord : List Path) (hord : ord.Nodup) :
     (run fixed cfg ord true (afterCrashes cfg chain false FS.empty)).ok = true ∧
       FinOK cfg (run fixed cfg ord true (afterCrashes cfg chain false FS.empty)).fs := by
-  have hJ := afterCrashes_J wf hm chain hc false (J0_empty cfg) (by simp) (fun _ => lockList_empty cfg) hne
+  have hJ := afterCrashes_J wf hm chain hc false (fun _ => h0) (J0_empty cfg) (by simp) (fun _ => lockList_empty cfg) hne
   obtain ⟨_, _, hok, _, hfin⟩ := run_shape wf ord hord true hJ.2 (fun _ => hJ.1) (by simp)
     (fun e => by rw [hm] at e; exact absurd e (by simp))
   exact ⟨hok, hfin⟩
@@ -317,31 +362,31 @@ def unalignedForgottenBuggy : Variant := { fixed with countUnaligned := false }
 /-- safety fails: killed right after the `_processed` lock appeared (event 49 = `create processed 0`, the printers'
     buffers not yet flushed), the resumed run exits successfully with truncated results -/
 theorem resume_never_silently_wrong_lock_before_flush_witness :
-    (cleanEvents lockBeforeFlushBuggy cfg1 ord1)[48]? = some (.create (.processed 0)) ∧
-    verdict lockBeforeFlushBuggy cfg1 ord1 ord1 49 = .diff := by decide +kernel
+    (cleanEvents lockBeforeFlushBuggy cfg1 ord1)[50]? = some (.create (.processed 0)) ∧
+    verdict lockBeforeFlushBuggy cfg1 ord1 ord1 51 = .diff := by decide +kernel
 
 /-- liveness fails: killed right after the `_collected` lock appeared (the dump not yet terminated), the resumed run raises -/
 theorem resume_completes_lock_before_flush_witness :
-    (cleanEvents lockBeforeFlushBuggy cfg1 ord1)[9]? = some (.create (.collected 0)) ∧
-    verdict lockBeforeFlushBuggy cfg1 ord1 ord1 10 = .fail := by decide +kernel
+    (cleanEvents lockBeforeFlushBuggy cfg1 ord1)[11]? = some (.create (.collected 0)) ∧
+    verdict lockBeforeFlushBuggy cfg1 ord1 ord1 12 = .fail := by decide +kernel
 
 /-- liveness fails (class merge-in-progress): killed after the first removal of a per-chromosome file while the
     `_processed` lock still exists, the resumed run raises (FileNotFoundError in merge_files) -/
 theorem resume_completes_merge_in_progress_witness :
-    (cleanEvents mergeKeepsLocksBuggy cfg1 ord1)[54]? = some (.remove (.part .gtf 0)) ∧
-    verdict mergeKeepsLocksBuggy cfg1 ord1 ord1 55 = .fail := by decide +kernel
+    (cleanEvents mergeKeepsLocksBuggy cfg1 ord1)[56]? = some (.remove (.part .gtf 0)) ∧
+    verdict mergeKeepsLocksBuggy cfg1 ord1 ord1 57 = .fail := by decide +kernel
 
 /-- liveness fails (class cleanup-before-lock-removal): killed after the clean-up removed the info file while the stage
     lock still exists, the resumed run raises -/
 theorem resume_completes_cleanup_before_lock_removal_witness :
-    (cleanEvents cleanupAnyOrderBuggy cfg1 ord1)[83]? = some (.remove .info) ∧
-    verdict cleanupAnyOrderBuggy cfg1 ord1 ord1 84 = .fail := by decide +kernel
+    (cleanEvents cleanupAnyOrderBuggy cfg1 ord1)[85]? = some (.remove .info) ∧
+    verdict cleanupAnyOrderBuggy cfg1 ord1 ord1 86 = .fail := by decide +kernel
 
 /-- safety fails: killed once read collection has finished (event 16 = stage lock written), the resumed run skips the
     collection, reports `__not_aligned 0` and exits successfully -/
 theorem resume_never_silently_wrong_unaligned_witness :
-    (cleanEvents unalignedForgottenBuggy cfg1 ord1)[15]? = some (.create .lock) ∧
-    verdict unalignedForgottenBuggy cfg1 ord1 ord1 16 = .diff := by decide +kernel
+    (cleanEvents unalignedForgottenBuggy cfg1 ord1)[17]? = some (.create .lock) ∧
+    verdict unalignedForgottenBuggy cfg1 ord1 ord1 18 = .diff := by decide +kernel
 
 /-- the pinned tree (all four repairs off): silently wrong at 16, failing at 10 and 55 -/
 theorem pinned_witness :
@@ -363,8 +408,8 @@ def staleLocksKeptBuggy : Variant := { fixed with cleanBeforeParams := false }
 /-- a fresh run over `leftover1` killed right after it saved its parameters: the resumed run trusts the earlier run's
     `_collected` lock and exits successfully with results computed from the earlier run's data -/
 theorem resume_never_silently_wrong_dirty_folder_witness :
-    (cleanEventsFrom staleLocksKeptBuggy cfg1 ord1 leftover1)[1]? = some (.commit .params .good) ∧
-    verdictFrom staleLocksKeptBuggy cfg1 ord1 ord1 leftover1 2 = .diff := by decide +kernel
+    (cleanEventsFrom staleLocksKeptBuggy cfg1 ord1 leftover1)[3]? = some (.commit .params .good) ∧
+    verdictFrom staleLocksKeptBuggy cfg1 ord1 ord1 leftover1 4 = .diff := by decide +kernel
 
 /-- `--read_assignments` on the toy configuration -/
 def cfgS : Cfg := { cfg1 with fromSaves := true, unmapped := false }
@@ -384,15 +429,15 @@ def dropWrongPrefixBuggy : Variant := { fixed with dropAtDumpPrefix := false }
 /-- `--read_assignments`, killed after the first per-chromosome file was merged away: the `_processed` lock is still
     there, the resumed run raises — it can never complete -/
 theorem resume_completes_read_assignments_witness :
-    (cleanEventsFrom dropWrongPrefixBuggy cfgS ord1 saves1)[41]? = some (.remove (.part .gtf 0)) ∧
-    verdictFrom dropWrongPrefixBuggy cfgS ord1 ord1 saves1 42 = .fail := by decide +kernel
+    (cleanEventsFrom dropWrongPrefixBuggy cfgS ord1 saves1)[43]? = some (.remove (.part .gtf 0)) ∧
+    verdictFrom dropWrongPrefixBuggy cfgS ord1 ord1 saves1 44 = .fail := by decide +kernel
 
 /-- `--read_assignments` on save files carrying a stale `_processed` lock, before 428ba30: killed during model
     construction, the resumed run skips the chromosome and exits successfully with truncated results (k = 31), or
     raises (k = 2) -/
 theorem resume_never_silently_wrong_stale_processed_witness :
-    verdictFrom staleLocksKeptBuggy cfgS ord1 ord1 saves1Stale 31 = .diff ∧
-    verdictFrom staleLocksKeptBuggy cfgS ord1 ord1 saves1Stale 2 = .fail := by decide +kernel
+    verdictFrom staleLocksKeptBuggy cfgS ord1 ord1 saves1Stale 33 = .diff ∧
+    verdictFrom staleLocksKeptBuggy cfgS ord1 ord1 saves1Stale 4 = .fail := by decide +kernel
 
 /-! ### `--sqanti_output`, several experiments: witnesses for two seeded changes -/
 
@@ -406,8 +451,8 @@ def sqantiNotFlushedBuggy : Variant := { fixed with flushSqanti := false }
 /-- killed right after the `_processed` lock appeared (event 57 = `create processed 0`): the resumed run skips the
     chromosome and exits successfully with a truncated SQANTI-like table -/
 theorem resume_never_silently_wrong_sqanti_witness :
-    (cleanEvents sqantiNotFlushedBuggy cfgQ ord1)[56]? = some (.create (.processed 0)) ∧
-    verdict sqantiNotFlushedBuggy cfgQ ord1 ord1 57 = .diff := by decide +kernel
+    (cleanEvents sqantiNotFlushedBuggy cfgQ ord1)[58]? = some (.create (.processed 0)) ∧
+    verdict sqantiNotFlushedBuggy cfgQ ord1 ord1 59 = .diff := by decide +kernel
 
 /-- the toy configuration as a second experiment of an invocation whose first experiment has unaligned reads -/
 def cfgB : Cfg := { cfg1 with carried := true }
@@ -420,15 +465,15 @@ def counterNotResetBuggy : Variant := { fixed with resetCounter := false }
     skips the collection, adds this experiment's unaligned reads to those of the earlier experiments and exits
     successfully with a wrong `__not_aligned` line -/
 theorem resume_never_silently_wrong_carried_counter_witness :
-    (cleanEvents counterNotResetBuggy cfgB ord1)[15]? = some (.create .lock) ∧
-    verdict counterNotResetBuggy cfgB ord1 ord1 16 = .diff := by decide +kernel
+    (cleanEvents counterNotResetBuggy cfgB ord1)[17]? = some (.create .lock) ∧
+    verdict counterNotResetBuggy cfgB ord1 ord1 18 = .diff := by decide +kernel
 
 -- `resume_correct` covers both dimensions: the same kill points on the repaired code
-example : verdict fixed cfgQ ord1 ord1 57 = .equal ∧ verdict fixed cfgB ord1 ord1 16 = .equal :=
+example : verdict fixed cfgQ ord1 ord1 59 = .equal ∧ verdict fixed cfgB ord1 ord1 18 = .equal :=
   ⟨resume_correct (cfg := cfgQ) ⟨by decide, by decide, by decide, fun _ => Iff.rfl, fun _ _ h => h⟩ rfl ord1 ord1
-      (by decide) (by decide) 57 (by omega),
+      (by decide) (by decide) 59 (by omega),
    resume_correct (cfg := cfgB) ⟨by decide, by decide, by decide, fun _ => Iff.rfl, fun _ _ h => h⟩ rfl ord1 ord1
-      (by decide) (by decide) 16 (by omega)⟩
+      (by decide) (by decide) 18 (by omega)⟩
 
 /-! ### non-vacuity -/
 
@@ -446,27 +491,27 @@ theorem cfg3_wf : WF cfg3 := by
   constructor <;> rintro (rfl | rfl | rfl) <;> simp
 
 -- the hypotheses of `resume_correct` are met by a concrete non-trivial input: 302 events, kill point 200
-example : WF cfg3 ∧ ord3.Nodup ∧ (cleanEvents fixed cfg3 ord3).length = 302 ∧ 2 ≤ 200 ∧
+example : WF cfg3 ∧ ord3.Nodup ∧ (cleanEvents fixed cfg3 ord3).length = 304 ∧ 4 ≤ 200 ∧
     verdict fixed cfg3 ord3 ord3 200 = .equal :=
   ⟨cfg3_wf, by decide, by decide +kernel, by omega, resume_correct cfg3_wf rfl ord3 ord3 (by decide) (by decide) 200 (by omega)⟩
 
--- and before `.params` is saved the resumed run does fail (the hypothesis `2 ≤ k` is needed)
-example : verdict fixed cfg3 ord3 ord3 1 = .fail := by decide +kernel
+-- and before `.params` is saved the resumed run does fail (the hypothesis `4 ≤ k` is needed)
+example : verdict fixed cfg3 ord3 ord3 3 = .fail := by decide +kernel
 
 
--- the history clauses are met by concrete inputs: a dirty folder with two locks to remove (kill point 4 = right after
--- `.params`), and save files with a stale `_processed` lock (one lock to remove, kill point 3)
-example : (lockList cfg1 leftover1).length + 2 ≤ 4 ∧ verdictFrom fixed cfg1 ord1 ord1 leftover1 4 = .equal :=
+-- the history clauses are met by concrete inputs: a dirty folder with two locks to remove (kill point 6 = right after
+-- `.params`), and save files with a stale `_processed` lock (one lock to remove, kill point 5)
+example : (lockList cfg1 leftover1).length + 4 ≤ 6 ∧ verdictFrom fixed cfg1 ord1 ord1 leftover1 6 = .equal :=
   ⟨by decide, resume_correct_dirty_folder (cfg := cfg1) ⟨by decide, by decide, by decide, fun _ => Iff.rfl, fun _ _ h => h⟩ rfl
-      ord1 ord1 (by decide) (by decide) leftover1 (indexSound_of_not_trusted rfl _) 4 (by decide)⟩
+      ord1 ord1 (by decide) (by decide) leftover1 (indexSound_of_not_trusted rfl _) 6 (by decide)⟩
 
 theorem saves1Stale_consistent : SavesConsistent cfgS saves1Stale := by
   refine ⟨⟨by decide, ?_⟩, ?_⟩
   · intro c hc; simp only [cfgS, cfg1, List.mem_cons, List.not_mem_nil, or_false] at hc; subst hc; exact ⟨by decide, by decide⟩
   · intro c hc _; simp only [cfgS, cfg1, List.mem_cons, List.not_mem_nil, or_false] at hc; subst hc; exact ⟨by decide, by decide⟩
 
-example : (lockList cfgS saves1Stale).length + 2 ≤ 3 ∧ verdictFrom fixed cfgS ord1 ord1 saves1Stale 3 = .equal :=
+example : (lockList cfgS saves1Stale).length + 4 ≤ 5 ∧ verdictFrom fixed cfgS ord1 ord1 saves1Stale 5 = .equal :=
   ⟨by decide, resume_correct_read_assignments (cfg := cfgS) ⟨by decide, by decide, by decide, fun _ => Iff.rfl, fun _ _ h => h⟩ rfl
-      ord1 ord1 (by decide) (by decide) saves1Stale saves1Stale_consistent (indexSound_of_not_trusted rfl _) 3 (by decide)⟩
+      ord1 ord1 (by decide) (by decide) saves1Stale saves1Stale_consistent (indexSound_of_not_trusted rfl _) 5 (by decide)⟩
 
 end IsoVerif.Props.C07
